@@ -246,7 +246,16 @@ class ExactSolver(object, metaclass=_AddParametersToDocstring):
 
     def __call__(self, r, t):
 
-        return self._run(numpy.asarray(r), t)
+        r = numpy.asarray(r)
+
+        # Points given as integers (e.g. [0, 1, 2] or numpy.arange(10)) are
+        # coordinates like any others.  Without the conversion, solvers that
+        # allocate their results with empty_like/zeros_like of the points
+        # truncate them to integers, and others fail on integer powers.
+        if r.dtype.kind in 'iu':
+            r = r.astype(float)
+
+        return self._run(r, t)
 
 
 class ExactSolution(numpy.recarray):
